@@ -362,6 +362,24 @@ def main_check(engine, tier, verif_seed, wall_cap=None, workers=None):
                 det["fresh_checked"] += 1
                 if fd.get(str(k)) != total["per_k"][k]:
                     det["fresh_interpreter_mismatch"] += 1
+    # thorough: the same seeds again at other worker counts (1 and 4 unpinned-order pools)
+    if tier == "thorough" and m > 0 and not os.environ.get("VERIF_SKIP_FRESH"):
+        det["other_worker_counts"] = {}
+        for wc in (1, 4):
+            c2 = ctx.Value("i", 0)
+            with cf.ProcessPoolExecutor(max_workers=wc, mp_context=ctx, initializer=_pin, initargs=(c2,)) as p2:
+                ks = list(range(m))
+                parts_ = [ks[i::wc] for i in range(wc)]
+                futs2 = [p2.submit(_work, (prop, verif_seed, part, want, 0)) for part in parts_ if part]
+                mism = 0
+                for f in futs2:
+                    a2 = f.result(timeout=engine.run_timeout + 60)
+                    if a2["error"]:
+                        harness_exit(f"{prop}: engine raised in self-test at {wc} workers: {a2['error']}")
+                    mism += sum(1 for k, d in a2["per_k"].items() if total["per_k"].get(k) != d)
+            det["other_worker_counts"][str(wc)] = {"checked": m, "mismatch": mism}
+            if mism:
+                harness_exit(f"{prop}: determinism self-test failed at {wc} workers: {det}")
     if det["second_worker_mismatch"] or det["fresh_interpreter_mismatch"]:
         harness_exit(f"{prop}: determinism self-test failed: {det}")
 
